@@ -460,9 +460,9 @@ func c09Config(c *c09Case, k int) (withPO bool, o progOpts) {
 
 func c09GenCases(e *env) []*c09Built {
 	var out []*c09Built
-	nGen := 150 * e.scale
+	nGen := 400 * e.scale
 	if e.tier == "thorough" {
-		nGen = 150
+		nGen = 400
 		if e.scale > 10 {
 			nGen = 4 * e.scale
 		}
@@ -873,21 +873,51 @@ func c09Compile(files []srcFile) (*template.Registry, error) {
 }
 
 // one render, alone or not: "ok:"/"err:" + hex of the bytes that reached the writer
-func c09Render(tofu *soyhtml.Tofu, name string, d data.Map, ij data.Map, msgs soymsg.Bundle) (res string) {
-	var buf bytes.Buffer
+func c09Render(tofu *soyhtml.Tofu, name string, d data.Map, ij data.Map, msgs soymsg.Bundle, limit int) (res string) {
+	w := &c09Writer{limit: limit}
 	defer func() {
 		if p := recover(); p != nil {
-			res = "panic:" + hex.EncodeToString(buf.Bytes())
+			res = "panic:" + hex.EncodeToString(w.buf.Bytes())
 		}
 	}()
 	rd := tofu.NewRenderer(name).Inject(ij)
 	if msgs != nil {
 		rd = rd.WithMessages(msgs)
 	}
-	if err := rd.Execute(&buf, d); err != nil {
-		return "err:" + hex.EncodeToString(buf.Bytes())
+	if err := rd.Execute(w, d); err != nil {
+		return "err:" + hex.EncodeToString(w.buf.Bytes())
 	}
-	return "ok:" + hex.EncodeToString(buf.Bytes())
+	return "ok:" + hex.EncodeToString(w.buf.Bytes())
+}
+
+// c09Writer is the caller's writer of one render (private to it); with
+// limit >= 0 it accepts that many bytes and then fails, which sends the render
+// down its error path (errRecover reads the registry's source and file maps).
+type c09Writer struct {
+	buf   bytes.Buffer
+	limit int
+}
+
+func (w *c09Writer) Write(p []byte) (int, error) {
+	if w.limit < 0 {
+		return w.buf.Write(p)
+	}
+	if len(p) <= w.limit {
+		w.limit -= len(p)
+		return w.buf.Write(p)
+	}
+	n := w.limit
+	w.buf.Write(p[:n])
+	w.limit = 0
+	return n, fmt.Errorf("writer full")
+}
+
+// soloLimit: where the failing writer of job j gives up (half of the solo output)
+func soloLimit(solo string) int {
+	if i := strings.IndexByte(solo, ':'); i >= 0 {
+		return (len(solo) - i - 1) / 4
+	}
+	return 0
 }
 
 // c09ES6 is ONE formatter value shared by every goroutine that generates ES6 modules.
@@ -960,9 +990,15 @@ func c09RunCase(c *c09Case) *c09Result {
 	for j, job := range c.Jobs {
 		// every solo render gets a registry nobody has rendered from
 		fresh, _ := c09Compile(c.Files)
-		solo[j] = c09Render(soyhtml.NewTofu(fresh), job.Template, datas[j], ij, msgs)
+		solo[j] = c09Render(soyhtml.NewTofu(fresh), job.Template, datas[j], ij, msgs, -1)
 	}
 	r.Solo = solo
+	// the same jobs alone with a writer that fails half way
+	soloF := make([]string, len(c.Jobs))
+	for j, job := range c.Jobs {
+		fresh, _ := c09Compile(c.Files)
+		soloF[j] = c09Render(soyhtml.NewTofu(fresh), job.Template, datas[j], ij, msgs, soloLimit(solo[j]))
+	}
 	jsSolo := make([][2]string, len(alone.SoyFiles))
 	for k, f := range alone.SoyFiles {
 		for v, es6 := range []bool{false, true} {
@@ -994,10 +1030,14 @@ func c09RunCase(c *c09Case) *c09Result {
 				if g%2 == 1 {
 					j = (k + g) % nj
 				}
-				got := c09Render(tofu, c.Jobs[j].Template, datas[j], ij, msgs)
+				want, limit := solo[j], -1
+				if g%4 == 3 && k%2 == 1 { // some renders meet a failing writer
+					want, limit = soloF[j], soloLimit(solo[j])
+				}
+				got := c09Render(tofu, c.Jobs[j].Template, datas[j], ij, msgs, limit)
 				counts[g]++
-				if got != solo[j] && len(diffs[g]) == 0 {
-					diffs[g] = append(diffs[g], fmt.Sprintf("goroutine %d render %d of %s: alone %s, concurrently %s", g, k, c.Jobs[j].Template, clip(solo[j]), clip(got)))
+				if got != want && len(diffs[g]) == 0 {
+					diffs[g] = append(diffs[g], fmt.Sprintf("goroutine %d render %d of %s (writer limit %d): alone %s, concurrently %s", g, k, c.Jobs[j].Template, limit, clip(want), clip(got)))
 				}
 			}
 		}(g)
@@ -1037,7 +1077,7 @@ func c09RunCase(c *c09Case) *c09Result {
 				}
 				j := k % nj
 				// the independent bundle gets its own data copy?  No: data is shared on purpose.
-				got := c09Render(soyhtml.NewTofu(reg), c.Jobs[j].Template, datas[j], ij, msgs)
+				got := c09Render(soyhtml.NewTofu(reg), c.Jobs[j].Template, datas[j], ij, msgs, -1)
 				if got != solo[j] && len(diffs[slot]) == 0 {
 					diffs[slot] = append(diffs[slot], fmt.Sprintf("independent bundle compiled concurrently renders %s differently: alone %s, now %s", c.Jobs[j].Template, clip(solo[j]), clip(got)))
 				}
